@@ -68,6 +68,41 @@ def _text_chunk(items):
     return bad
 
 
+MULTILINE = ['a\nb', 'a\n', '\nb', 'a\n\nb', 'a b\r\nc\r\n', 'a\rb', 'a\n\n']
+
+
+def _multiline_cases():
+    """text with line breaks (format off): every line of the payload comes out as a line of its own - also a last, empty one -
+    between the tags of its element, indented by white space only"""
+    import re
+    import emmet
+    bad = []
+    n = 0
+    for p in MULTILINE:
+        want = re.split(r'\r\n|\r|\n', p)
+        for abbr, el in (('x{%s}' % p, 'x'), ('{%s}' % p, None), ('y>x.c{%s}' % p, 'x')):
+            n += 1
+            case = {'abbr': abbr, 'payload': p, 'position': 'multi-line text', 'format': False, 'expected_text': want}
+            try:
+                out = emmet.expand(abbr, {'options': {'output.format': False}})
+                if el is None:
+                    lines = out.split('\n')
+                else:
+                    xs = [k for k in ph.tree(ph.lex(out)) if k['n'] == el]
+                    lines = xs[0]['t'].split('\n')
+                    if lines[0].strip('\t') != '' or lines[-1].strip('\t') != '':
+                        bad.append(('text-verbatim', dict(case, actual_text=lines, output=out)))
+                        continue
+                    lines = lines[1:-1]
+                got = [l.lstrip('\t') for l in lines]
+            except Exception as ex:
+                bad.append(('expand raised', dict(case, exception=type(ex).__name__)))
+                continue
+            if got != want:
+                bad.append(('text-verbatim', dict(case, actual_text=got, output=out)))
+    return n, bad
+
+
 def _lines_of(s):
     return [l.strip() for l in s.strip().split('\n')] if s.strip() else []
 
@@ -128,6 +163,11 @@ def run(out):
                        'starts like a block tag is laid out on its own lines by design)',
                        'wrap lines contain no double quote (attribute values are printed unescaped, the lexer could not delimit them)',
                        'multi-line insertions are compared as lists of trimmed lines (the formatter indents them)']
+    nml, badml = _multiline_cases()
+    out.evaluations += nml
+    out.parts.append({'instance': 'multi-line-payloads', 'cases': nml, 'payloads': MULTILINE})
+    for what, case in badml:
+        out.violation(what, case)
     plain = {"a", "~", "*", "#", "@", "-", "+", ">", "^", "(", ")", "[", "]", "'", "\"", " ", ".", "/", "=", ":", "!", "1"}
     esc = {"BS", "{", "}", "$", "*", "a", "\"", "[", ">"}
     insts = [('payloads-exhaustive', dict(constants={'MaxUnits': 2 if quick else 3, 'Plain': plain, 'Esc': esc})),
@@ -187,7 +227,7 @@ def run(out):
         for k in ks[:2]:
             out.sample({'abbr': k[0], 'lines': list(k[1]), 'expected': [[e['d'], e['n'], e['title'], e['text']] for e in vecs[k]['out']]})
     # ---- grammar-level differential: tokenizer + parser + convert() of the specification against abbreviation.parse()
-    gq = dict(NameFr={"x", ""}, ModFr={"{t}", "{a>b+c}", "{aBS}b{c}d}", "{${1:p} q}", "{$# $$}", "{BSBS*[=]}", ".c", "{ sp }", "{}"}, RepFr={"*2", "*"},
+    gq = dict(NameFr={"x", ""}, ModFr={"{t}", "{a>b+c}", "{aBS}b{c}d}", "{${1:p} q}", "{$# $$}", "{BSBS*[=]}", ".c", "{ sp }", "{}", "{a{$b}}", "{{${1}}z}"}, RepFr={"*2", "*"},
               OpFr={">", "+", "^"}, MaxGroups=1, MaxMods=2)
     grammar.differential(out, 'grammar-text', dict(gq, MaxFrag=5 if quick else 7), ('d', 'name', 'text'), 'text-verbatim (node tree of abbreviation.parse)')
 
